@@ -396,6 +396,11 @@ def check_scenario(case) -> Res:
                 for e2 in second:
                     r2, snap2, sb2, t2 = run_dev(("fail2", k, e1, k2, e2), mode=shim.LOG | shim.FAIL, fail_k=k, fail_errno=e1, fail_k2=k2, fail_errno2=e2)
                     record(("fail2", k, k2), judge(sc, ("fail2", k, k2), r2, snap2, prev, pmode, new_bytes, r2["log"]), r2, snap2)
+    # (s) SHORT WRITES: every write() of the fault-free run stores only half of its buffer and says so
+    for e0 in [x for x in ref["log"] if x["k"] >= 0 and x["op"] == "write" and x["result"] > 1]:
+        r, snap, sb, target = run_dev(("short", e0["k"]), mode=shim.LOG | shim.FAIL, fail_k=e0["k"], fail_errno=-1)
+        record(("short", e0["k"]), judge(sc, ("short", e0["k"]), r, snap, prev, pmode, new_bytes, r["log"]), r, snap)
+        extra.append((json.dumps(sc, sort_keys=True), "short", e0["k"], (r["result"] or {}).get("status"), hashlib.sha1(repr(snap["target_bytes"]).encode()).hexdigest()))
     # (e) an external, non-cooperating modification of the target lands immediately before call k (between two steps of the
     #     write path): an error return must leave the environment's bytes and no temp file; a success must be complete
     if prev is not None:
